@@ -139,6 +139,7 @@ PROPS = {
     "C12": {
         "level": "proof",
         "verus": [("intern", None), ("evaluated", ["Evaluated::from_expr_amount_mut", "Evaluated::from_expr_amount"]), ("bookkeep", ["ProcessAccumulator::process"])],
+        "family": ("c12", {"quick": [], "thorough": []}),
         "explanation": "Verus proves the alias table on the real InternStore code (HashMap<&str, Option<InternedStr>>): a representation invariant (aliases point at registered canonicals, no chains) is "
                        "preserved by every operation; resolve/ensure map an alias to the canonical it was declared for and a canonical to itself, never re-point or remove a known name (so a later use of an alias "
                        "means the canonical in every later state); insert_canonical on an alias is AlreadyAlias and insert_alias on a canonical is AlreadyCanonical with the table unchanged; every commodity name "
